@@ -203,11 +203,55 @@ def header_order(params):
     return {"violated": bool(bad), "problems": bad}
 
 
+def quoted_names(params):
+    """subject names the csv writer has to quote (quote character, tab, comma, leading blank): recognised as finished after a restart"""
+    serial_pools()
+    names = ['he said "hi"', "tab\there", "a,b", " lead", 'q"']
+    bad = []
+    with tempfile.TemporaryDirectory() as d:
+        out = os.path.join(d, "o.tsv")
+        try:
+            session(out, names[:3], kill_after=None)
+            session(out, names, kill_after=None)     # restart: the first three are finished already
+            session(out, names, kill_after=None)     # and once more
+            bad += check_final(out, names)
+        except Exception as e:
+            bad.append(f"raised {type(e).__name__}: {e}"[:200])
+    return {"violated": bool(bad), "problems": bad[:3]}
+
+
+def hashseed(params):
+    """the header an aggregator computes must not depend on the interpreter process (string hashing is randomised per process)"""
+    import subprocess, sys, json as _json
+    code = (
+        "import sys, json, tempfile, os\n"
+        "sys.path.insert(0, %r)\n"
+        "from replay.util import serial_pools; serial_pools()\n"
+        "from replay.c17 import _evaluator\n"
+        "from panoptica import Panoptica_Aggregator\n"
+        "d = tempfile.mkdtemp(); out = os.path.join(d, 'o.tsv')\n"
+        "Panoptica_Aggregator(_evaluator(), out, log_times=True)\n"
+        "print(json.dumps(open(out).readline().rstrip('\\n').split('\\t')))\n" % os.path.dirname(os.path.dirname(os.path.abspath(__file__))))
+    heads = []
+    for seed in ("0", "1", "2", "3", "12345"):
+        env = dict(os.environ, PYTHONHASHSEED=seed, PANOPTICA_CITATION_REMINDER="false")
+        p = subprocess.run([sys.executable, "-W", "ignore", "-c", code], capture_output=True, text=True, env=env, timeout=120)
+        line = [l for l in p.stdout.splitlines() if l.startswith("[")]
+        if p.returncode != 0 or not line:
+            return {"violated": True, "problems": [f"header run failed under PYTHONHASHSEED={seed}: {p.stderr[-200:]}"]}
+        heads.append(_json.loads(line[-1]))
+    bad = []
+    if any(h != heads[0] for h in heads):
+        k = next(i for i, h in enumerate(heads) if h != heads[0])
+        bad.append(f"header differs between interpreter processes: {heads[0][-4:]} vs {heads[k][-4:]} (a restarted session would refuse the file)")
+    return {"violated": bool(bad), "problems": bad}
+
+
 def bounded(params):
     serial_pools()
     tier, seed = params.get("tier", "quick"), int(params.get("seed", 0))
     failures, evals = [], 0
-    for kind, fn in (("restart", restart), ("crash", crash), ("neighbours", neighbours), ("header_order", header_order)):
+    for kind, fn in (("restart", restart), ("crash", crash), ("neighbours", neighbours), ("header_order", header_order), ("quoted_names", quoted_names), ("hashseed", hashseed)):
         res = fn({})
         evals += 1
         if res["violated"]:
